@@ -634,7 +634,9 @@ class BaseConnector:
         """Set Proxy-Authorization header for non-SSL proxy requests and builds the proxy request for SSL proxy requests."""
         url = req.proxy
         assert url is not None
-        headers = req.proxy_headers or CIMultiDict[str]()
+        # A copy: req.proxy_headers is part of the connection key and is
+        # shared by every attempt of the request.
+        headers = CIMultiDict[str](req.proxy_headers or ())
         headers[hdrs.HOST] = req.headers[hdrs.HOST]
         proxy_req = ClientRequestBase(
             hdrs.METH_GET,
